@@ -79,6 +79,133 @@ def writers(mod, gname):
     return ws
 
 
+REPLACERS = ('cfg_yy_switch_to_buffer', 'cfg_yy_scan_string', 'cfg_yy_scan_bytes', 'cfg_yy_scan_buffer', 'cfg_yyrestart', 'cfg_yy_flush_buffer')
+
+
+def sources_are_stacked(c, chk, rid='R8.12'):
+    """R8.12: a parse that begins while another one is under way (from a callback of the outer one, or an include) puts its
+    source *on top of* the scanner's source stack and takes it off again (R8.2): the outer source is still there afterwards.  The
+    flex entries that *replace* the current source - yy_switch_to_buffer(), yy_scan_string()/bytes()/buffer() (which end in it),
+    yyrestart(), yy_flush_buffer() - are not called by hand-written code of either unit"""
+    chk.rule(rid, 'hand-written code begins a source by pushing it on the scanner\'s source stack, never by replacing the current source')
+    npush = 0
+    bad = None
+    for f in c.all_funcs():
+        w = c.where(f)
+        if w.startswith('<generated>'):
+            continue
+        for call in f.calls():
+            n = call.callee_name()
+            if n == 'cfg_yypush_buffer_state':
+                npush += 1
+            if n in REPLACERS and bad is None:
+                bad = (f, call, n)
+    if bad is not None:
+        f, call, n = bad
+        chk.fail(rid, 'source-replaced:%s' % f.name, c.where(call), '%s() begins a source with %s(), which replaces the source the scanner is reading instead of stacking the new one on top: '
+                 'a parse started from a callback of another parse discards the outer parse\'s input, which then continues on a buffer that has been deleted' % (f.name, n[4:]))
+    else:
+        chk.ok(rid, 'hand-written functions of both units', 'sources are begun with yypush_buffer_state() (%d sites); none calls a replacing entry' % npush)
+    chk.floor('%s hand-written push sites' % rid, npush, 1)
+
+
+TEXT_SINKS = {'free', 'strdup', 'fprintf', 'vfprintf', 'snprintf', 'vsnprintf', 'sprintf', 'fputs', 'cfg_error'}
+
+
+def position_is_text_only(c, chk, rid='R8.13'):
+    """R8.13: the file name a context remembers (cfg->filename) survives from one parse to the next - a stream or buffer parse does
+    not even replace it.  It is the text diagnostics begin with, and it is saved, restored and handed to sections; nothing is ever
+    *decided* by it and no other name is computed from it (def-use over the IR of both units: a value loaded from `filename` of a
+    context flows only into stores, NULL tests, free(), strdup() and the message formatters)"""
+    chk.rule(rid, 'the remembered file name is diagnostic text only: a value loaded from cfg->filename flows into stores, NULL tests, free(), strdup() and message formatters, nothing else')
+    n = 0
+    bad = None
+    for f in c.all_funcs():
+        if c.where(f).startswith('<generated>'):
+            continue
+        mod = f.module
+        seeds = set()
+        for ins in f.instrs():
+            if ins.op == 'load' and ins.ops[0].kind == 'reg':
+                d = f.defs.get(ins.ops[0].name)
+                if d is not None and d.op == 'getelementptr' and (d.srcty or '').strip() == '%struct.cfg_t' and len(d.ops) >= 3 and d.ops[2].kind == 'int' \
+                        and mod.field_name('%struct.cfg_t', d.ops[2].ival) == 'filename':
+                    # (a name this function has just installed itself is this parse's own name, not a remembered one)
+                    own = False
+                    for st in f.instrs():
+                        if st.op == 'store' and st.ops[1].kind == 'reg':
+                            d2 = f.defs.get(st.ops[1].name)
+                            if d2 is not None and d2.op == 'getelementptr' and (d2.srcty or '').strip() == '%struct.cfg_t' and len(d2.ops) >= 3 and d2.ops[2].kind == 'int' \
+                                    and mod.field_name('%struct.cfg_t', d2.ops[2].ival) == 'filename' and d2.ops[0].name == d.ops[0].name and _cfg.instr_dominates(f, st, ins):
+                                own = True
+                    if not own:
+                        seeds.add(ins.res)
+        if not seeds:
+            continue
+        t = set(seeds)
+        changed = True
+        while changed:
+            changed = False
+            for ins in f.instrs():
+                if ins.res is None or ins.res in t:
+                    continue
+                if ins.op in ('bitcast', 'phi', 'select'):
+                    vals = [v for v, _ in ins.incoming] if ins.op == 'phi' else ins.ops
+                    if any(v.kind == 'reg' and v.name in t for v in vals):
+                        t.add(ins.res)
+                        changed = True
+        for ins in f.instrs():
+            used = [k for k, v in enumerate(ins.args if ins.op == 'call' else ins.ops) if v is not None and v.kind == 'reg' and v.name in t]
+            if not used or ins.is_dbg():
+                continue
+            n += 1
+            ok = False
+            if ins.op in ('bitcast', 'phi', 'select', 'ret'):
+                ok = True
+            elif ins.op == 'store':
+                ok = used == [0]
+            elif ins.op == 'icmp':
+                ok = any(v.kind == 'null' or (v.kind == 'int' and v.ival == 0) for v in ins.ops)
+            elif ins.op == 'call':
+                ok = (ins.callee_name() in TEXT_SINKS)
+            if not ok and bad is None:
+                bad = (f, ins)
+    if bad is not None:
+        f, ins = bad
+        what = ins.callee_name() + '()' if ins.op == 'call' and ins.callee_name() else ins.op
+        chk.fail(rid, 'filename-decides:%s' % f.name, c.where(ins), '%s() feeds the file name the context remembers into %s: what the parse does then depends on which file an earlier parse of '
+                 'this context read last (a stream or buffer parse keeps the old name)' % (f.name, what))
+    else:
+        chk.ok(rid, '%d uses of cfg->filename in hand-written code' % n, 'stores, NULL tests, free(), strdup() and message formatting only')
+    chk.floor('%s uses of cfg->filename' % rid, n, 4)
+
+
+def classified_globals(c, chk, rid='R8.0', rid5='R8.5'):
+    """R8.0: every mutable global of both units falls under a named reset discipline (spec table DISCIPLINE): a new static - a
+    counter, a flag, a cache of the last lookup - carries what one parse, one comment or one lookup did into the next"""
+    gl = {}
+    for m in (c.confuse, c.lexer):
+        for name, g in mutable_globals(m).items():
+            gl.setdefault(name, []).append(m)
+    chk.floor('%s mutable globals' % rid, len(gl), 20)
+    for name in sorted(gl):
+        d = DISCIPLINE.get(name)
+        ws = set()
+        for m in gl[name]:
+            ws |= writers(m, name)
+        if d is None:
+            chk.fail(rid, 'unclassified-global:%s' % name[1:], 'src/%s' % ('confuse.c' if gl[name][0] is c.confuse else 'lexer.l'),
+                     'mutable global %s (written by %s) is covered by no reset discipline: state can leak from one parse into the next'
+                     % (name[1:], sorted(ws) or 'nobody'))
+        else:
+            chk.ok(rid, name[1:], '%s; written by %s' % (d, ', '.join(sorted(ws))[:120] or '-'), nontrivial=False)
+        if d == 'scanner-config':
+            extra = sorted(w for w in ws if w not in CONFIG_WRITERS)
+            if extra:
+                chk.fail(rid5, 'config-written:%s' % name[1:], 'src/lexer.l', 'scanner configuration global %s is written by %s' % (name[1:], extra))
+    return gl
+
+
 def run(c, chk):
     chk.explanation = EXPLANATION
     chk.rule('R8.0', 'every mutable global of both units is classified under a reset discipline')
@@ -111,27 +238,10 @@ def run(c, chk):
     from . import c16
     chk.rule('R8.8', 'the library writes only the state bits (reset, defaults-applied, modified, annotated) of an option\'s flag word: the declaration bits read the same in every later parse')
     c16.flag_words(c, chk, rid_opt='R8.8')
-    gl = {}
-    for m in (c.confuse, c.lexer):
-        for name, g in mutable_globals(m).items():
-            gl.setdefault(name, []).append(m)
+    gl = classified_globals(c, chk)
+    sources_are_stacked(c, chk)
+    position_is_text_only(c, chk)
     chk.analysed = {'mutable_globals': len(gl)}
-    chk.floor('R8.0 mutable globals', len(gl), 20)
-    for name in sorted(gl):
-        d = DISCIPLINE.get(name)
-        ws = set()
-        for m in gl[name]:
-            ws |= writers(m, name)
-        if d is None:
-            chk.fail('R8.0', 'unclassified-global:%s' % name[1:], 'src/%s' % ('confuse.c' if gl[name][0] is c.confuse else 'lexer.l'),
-                     'mutable global %s (written by %s) is covered by no reset discipline: state can leak from one parse into the next'
-                     % (name[1:], sorted(ws) or 'nobody'))
-        else:
-            chk.ok('R8.0', name[1:], '%s; written by %s' % (d, ', '.join(sorted(ws))[:120] or '-'), nontrivial=False)
-        if d == 'scanner-config':
-            extra = sorted(w for w in ws if w not in CONFIG_WRITERS)
-            if extra:
-                chk.fail('R8.5', 'config-written:%s' % name[1:], 'src/lexer.l', 'scanner configuration global %s is written by %s' % (name[1:], extra))
     # confuse.c side
     cg = sorted(n for n in mutable_globals(c.confuse))
     if cg == ['@cfg_yylval']:
